@@ -45,10 +45,11 @@ PROPS = {
     'C06': {
         'units': ['core_kernel', 'parser'],
         'kani': ['kani/swar.py'],
+        'kani_bounded': ['kani/prims.py'],
         'title': 'Parsing accepts exactly the literal grammar and never yields a wrong value',
         'design_ref': 'DESIGN.md section 7 (C06)',
         'assumptions': [
-            'the two raw-memory primitives skip_n (get_unchecked) and read_u64_unchecked (ptr::read_unaligned) are external_body stubs with requires n <= len / len >= 8 and slice / little-endian-word ensures; every call site is verified against those requires (that IS the never-reads-outside-the-string claim), their 1-3 line unsafe bodies are trusted',
+            'the two raw-memory primitives skip_n (get_unchecked) and read_u64_unchecked (ptr::read_unaligned) are external_body stubs with requires n <= len / len >= 8 and slice / little-endian-word ensures; every call site is verified against those requires (that IS the never-reads-outside-the-string claim), their 1-3 line unsafe bodies are trusted (pinned by hash) and additionally checked by a BOUNDED Kani run (kani/prims.py: buffers of length 0..=16, memory safety + functional contract), reported under coverage.bounded, not counted as proof',
             '<str as AsRef<[u8]>>::as_ref returns the UTF-8 bytes of the string (uninterpreted utf8(), assume_specification)',
             'chunk_contains_8_digits / chunk_to_u64 enter the Verus unit as stubs with exactly the contract proved by Kani on the full u64 domain (kani/swar.py, loop-free harnesses: complete, not bounded)',
         ],
